@@ -12,7 +12,9 @@
 use crate::rec::{self, Log};
 use crate::util::{self, epoch};
 use serde_json::json;
+use std::cell::Cell;
 use std::os::fd::AsRawFd;
+use std::rc::Rc;
 use std::os::unix::fs::FileExt;
 use std::time::Duration;
 use tokio::io::{AsyncReadExt, AsyncWriteExt};
@@ -379,8 +381,28 @@ async fn fam_uring(log: Log<String>, me: usize, s: Scn) {
     drop(file);
 }
 
-fn host_program(log: Log<String>, me: usize, s: Scn) -> impl std::future::Future<Output = turmoil::Result> + 'static {
+/// Logs the host's clocks when it is dropped: destructors run by `Sim::crash` / `Sim::bounce`
+/// observe virtual time only.
+struct ClockOnDrop(Log<String>, usize);
+impl Drop for ClockOnDrop {
+    fn drop(&mut self) {
+        // only inside a host context (a Sim that is dropped tears its hosts down outside of one)
+        if let Some(se) = turmoil::sim_elapsed() {
+            self.0.push(format!("n{} dropped: sim_elapsed {:?} since_epoch {:?}", self.1, se, turmoil::since_epoch()));
+        }
+    }
+}
+
+fn host_program(log: Log<String>, me: usize, s: Scn, restarts: Rc<Cell<u32>>) -> impl std::future::Future<Output = turmoil::Result> + 'static {
+    // the software factory runs at registration and again at every bounce; from the second run
+    // on the host has a clock, and reading it here must give virtual time
+    let n = restarts.get();
+    restarts.set(n + 1);
+    if n > 0 {
+        log.push(format!("n{me} restart #{n}: sim_elapsed {:?} since_epoch {:?}", turmoil::sim_elapsed(), turmoil::since_epoch()));
+    }
     async move {
+        let _clock_on_drop = ClockOnDrop(log.clone(), me);
         let mut hs = vec![];
         if s.fam_tcp {
             hs.push(tokio::task::spawn_local(fam_tcp(log.clone(), me, s.clone())));
@@ -465,7 +487,8 @@ pub fn run_trace(seed: u64) -> Vec<String> {
         sim.set_message_latency_curve(s.lambda10 as f64 / 10.0);
         for i in 0..s.nhosts {
             let (log, sc) = (log.clone(), s.clone());
-            sim.host(hname(i), move || host_program(log.clone(), i, sc.clone()));
+            let restarts = Rc::new(Cell::new(0u32));
+            sim.host(hname(i), move || host_program(log.clone(), i, sc.clone(), restarts.clone()));
         }
         let mut down = vec![false; s.nhosts];
         for k in 0..s.steps {
